@@ -5,17 +5,17 @@ HERE = os.path.dirname(os.path.dirname(os.path.abspath(__file__)))
 
 # id -> (level, technique, text, note, design_ref)   or   id -> reason string (not claimed)
 CHECKS = {
- "C12": ("proof", "table/constant agreement with vendored oracles + injectivity over the type-checked literals (go/types), SSA shape checks of invert/GetInfo",
+ "C12": ("proof", "table/constant agreement with vendored oracles + injectivity over the type-checked literals (go/types), SSA shape checks of invert/GetInfo; who-may-write check on the package-level tables (directly, through Info field aliases, through parameter-writing helpers)",
          "Exhaustive comparison of every row of the five syscall table literals, the audit constants, the Info literals and the alias map, as evaluated by the Go type checker, with independent oracle tables; proof relative to those oracle files.",
          "Trusted: go/types constant evaluation, go/ssa, /verif/oracle/oracle.json (x/sys v0.19.0, GOROOT syscall tables, /usr/include UAPI headers). Rows no oracle lists are counted, not compared.",
          "DESIGN.md section 4, C12"),
- "C19": ("proof", "per-target constant evaluation (go/types under all 49 GOOS/GOARCH of `go tool dist list`), build-constraint file selection, AST check of the stubs, dominance check of GetInfo / Policy.Assemble",
+ "C19": ("proof", "per-target constant evaluation (go/types under all 49 GOOS/GOARCH of `go tool dist list`), build-constraint file selection (also: every function the compiler entry points reach is declared in a file all targets build), AST check of the stubs, dominance check of GetInfo / Policy.Assemble",
          "Every constant the library exposes is evaluated by the type checker under every distribution target and compared with the vendored UAPI values; stubs are shown call-free; the unsupported-architecture path is a dominance fact. Exhaustive over the finite target list.",
          "Trusted: go/types, go list file selection, oracle.json (linux/seccomp.h, prctl.h, errno headers; mips ENOSYS recorded by hand).",
          "DESIGN.md section 4, C19"),
- "C14": ("other", "table agreement (parser and printer read one injective lower-case map; Operations = const block), SSA guard/dominance check of the Unpack methods, struct-tag key agreement over all types reachable from Policy",
+ "C14": ("other", "table agreement (parser and printer read one injective lower-case map; Operations = const block), SSA guard/dominance check of the Unpack methods, struct-tag key agreement and numeric-validator check over all types reachable from Policy; which decoder the sandbox reaches",
          "Decides the name-table and key-agreement clauses (necessary conditions of the round trip); the behaviour of go-ucfg / yaml.v2 on concrete documents is third-party run-time behaviour and is not claimed.",
-         "Trusted: go/types, go/ssa, tag-key conventions of go-ucfg, yaml.v2 and encoding/json. Not covered: number widths, validate tags, concrete documents.",
+         "Trusted: go/types, go/ssa, tag-key conventions of go-ucfg, yaml.v2 and encoding/json. go-ucfg numeric validators (required/nonzero/positive/min/max) as in v0.8. Not covered: number widths, validators on non-numeric fields, concrete documents.",
          "DESIGN.md section 4, C14"),
  "C08": ("other", "SSA value-flow chain followed backwards from the installation call through helper functions: seccomp(2) arg 3 <- SockFprog{Len: len(S), Filter: &S[0]} <- S = element-wise conversion (counted-loop abstraction: every index once, unconditional body, field-for-field) of exactly the slice returned by bpf.Assemble <- Policy.Assemble of filter.Policy; wrapper parameters reach the raw syscall through conversions only; when LoadFilter is split into helpers/closures the same chain is decided on the loader's event traces (engine E8: path enumeration with fallible-call forks and path-specific value following); plus `requires`: the rules of C01-C06 (the compiled program's decisions) are run on the same loaded program and a violation of any of them is reported as a violation of C08",
          "Program-identity clause only (second sentence of the property). The kernel's decisions after the load are run-time behaviour: not applicable to static analysis and not claimed.",
@@ -33,7 +33,7 @@ CHECKS = {
          "Holds on every path and therefore under every goroutine schedule (thread pinning is a structural fact); kernel acceptance is trusted.",
          "Trusted: go/ssa dominators, runtime.LockOSThread semantics, prctl(2) argument contract.",
          "DESIGN.md section 4, C11"),
- "C15": ("other", "dominance rules on the no-return-pruned CFG of cmd/sandbox.main: process start dominated by the success edges of the parser and of LoadFilter; every failure region ends in os.Exit(non-zero) without a process start; value-origin of Filter.Policy; TSYNC in the literal; plus `requires`: the rules of C07 (invalid policies are rejected), C09 (a refused load is an error) and C08 (with C01-C06) are run on the same loaded program and a violation of any of them is reported as a violation of C15",
+ "C15": ("other", "dominance rules on the no-return-pruned CFG of cmd/sandbox.main: process start dominated by the success edges of the parser and of LoadFilter; every failure region ends in os.Exit(non-zero) without a process start; value-origin of Filter.Policy; TSYNC in the literal; plus `requires`: the rules of C07 (invalid policies are rejected), C09 (a refused load is an error), C08 (with C01-C06) and C14 (the configuration path) are run on the same loaded program and a violation of any of them is reported as a violation of C15",
          "All paths through main, including each failure edge; that the target observes exactly the policy's decisions is C01-C08 plus the kernel and is not claimed.",
          "Trusted: go/ssa, os.Exit/log.Fatal do not return, enumerated process-start functions of os/exec, os, syscall.",
          "DESIGN.md section 4, C15"),
@@ -57,7 +57,7 @@ CHECKS = {
          "A complete argument on the schema of all label-level programs (every policy maps into the analysed graph): first matching group else default, errno carries EPERM. Stated at label level; equality with emitted lists above 255 instructions is C06 (necessary conditions only), which is why the level is `other` and not `proof`.",
          "Trusted: go/ssa, cBPF semantics, syscall tables (C12), the E1 engine itself. Conservative: a construct the automaton does not model fails the check.",
          "DESIGN.md sections 2.2 and 4, C01"),
- "C02": ("proof", "template extraction per operation from the emitter automaton and exhaustive evaluation over the ordering classes {<,=,>}^2 / bit classes {0,1}^2 (a complete partition of all 2^128 argument/operand pairs), in both byte-order worlds, last and non-last position; affine constant propagation of the word offsets per byte-order branch; byte-order detection cases",
+ "C02": ("proof", "template extraction per operation from the emitter automaton and exhaustive evaluation over the ordering classes {<,=,>}^2 / bit classes {0,1}^2 (a complete partition of all 2^128 argument/operand pairs), in both byte-order worlds, last and non-last position; affine constant propagation of the word offsets per byte-order branch; byte-order detection cases; re-evaluation of the program-building functions' constant expressions under the 386 and arm size models",
          "Finite, exhaustive case split: 62 class rows per (position, byte order) = 248 rows, all must agree with the unsigned 64-bit relation; word selection derived for both layouts (the tests force big-endian and cannot see the production layout).",
          "Trusted: go/ssa, cBPF jump-test semantics, struct seccomp_data layout, the E1 engine. Label level (C06).",
          "DESIGN.md section 4, C02"),
